@@ -65,6 +65,23 @@ def search(payload):
     res["evaluations"] += big["evaluations"]
     res["failures"] = (res["failures"] + big["failures"])[:10]
     res["known_hits"] += [h for h in big["known_hits"] if not h.get("witness")]
+    # bounds at the edge of the floats (+-inf, -0.0, the smallest positive float) and the exported type tests next to the none-tests
+    import predicate.standard_predicates as _SP2
+    from predicate.standard_predicates import ge_p as _g2, gt_p as _gt2, le_p as _l2, lt_p as _lt2, eq_p as _e2, ne_p as _n2, is_none_p as _none2, is_not_none_p as _nn2
+    inf_ = float("inf")
+    edge = [_gt2(-inf_), _lt2(inf_), _g2(-inf_), _l2(inf_), _gt2(inf_), _lt2(-inf_), _e2(inf_), _n2(-inf_), _g2(-0.0), _gt2(0.0), _l2(5e-324), _gt2(-5e-324), _g2(1), _l2(3)]
+    et = []
+    for a in edge:
+        for b in edge:
+            if a is not b:
+                et += [a & b, a | b]
+    types_ = [getattr(_SP2, nm_) for nm_ in ("is_hashable_p", "is_callable_p", "is_iterable_p", "is_container_p", "is_int_p", "is_str_p", "is_list_p", "is_bool_p", "is_float_p", "is_dict_p") if hasattr(_SP2, nm_)]
+    for t_ in types_:
+        et += [t_ & _nn2, _nn2 & t_, t_ | _none2, t_ & _none2, ~t_ | _nn2, t_ ^ _nn2]
+    eb = oc.search(et, [-inf_, inf_, 0.0, -0.0, 5e-324, -5e-324, 1, 2, 3, 4, -1, 1e308, -1e308, None, "a", [], (), {}, len, True, 2.5], "C02", payload)
+    res["evaluations"] += eb["evaluations"]
+    res["failures"] = (res["failures"] + eb["failures"])[:10]
+    res["known_hits"] += [h for h in eb["known_hits"] if not h.get("witness")]
     res["big_parameter_evaluations"] = big["evaluations"]
     # HISTORY: the same small trees again and again in this process, same-shaped trees that differ in one constant one after the other
     # (-1 / -2 hash alike), atoms SHARED between successive calls (an optimizer that edits a set in place changes the next tree)
